@@ -81,8 +81,9 @@ func currentProposal(c *dbft.Context[H]) (dbft.ConsensusPayload[H], string) {
 	if req.Type() != dbft.PrepareRequestType {
 		return nil, "primary slot does not hold a PrepareRequest"
 	}
-	if uint(req.ValidatorIndex()) != c.GetPrimaryIndex(c.ViewNumber) {
-		return nil, fmt.Sprintf("proposal is from %d, primary of view %d is %d", req.ValidatorIndex(), c.ViewNumber, c.GetPrimaryIndex(c.ViewNumber))
+	// the designated primary is computed by the monitor itself, (height - view) mod N, not taken from the library
+	if want := primaryAt(c.BlockIndex, c.ViewNumber, len(c.Validators)); int(req.ValidatorIndex()) != want {
+		return nil, fmt.Sprintf("proposal is from %d, primary of height %d view %d is %d", req.ValidatorIndex(), c.BlockIndex, c.ViewNumber, want)
 	}
 	if req.ViewNumber() != c.ViewNumber {
 		return nil, "stored proposal is of another view"
